@@ -101,6 +101,9 @@ static bool checkCodec(Ctx &c, const codec::Codec &k, const Input &in)
         return false;
     const QByteArray y = k.parseSerialize(in.target);
     c.label(std::string("codec:") + k.name);
+    // recorded finding C02-xhtml-malformed: XHTML-IM content is copied by string surgery; every other source of ill-formed
+    // output keeps a signature of its own
+    const std::string illFormedTag = in.xml.contains(QStringLiteral("http://jabber.org/protocol/xhtml-im")) ? " (input has XHTML-IM)" : "";
     if (y.isEmpty())
         return true;   // nothing understood, nothing written
     const QString ys = QString::fromUtf8(y);
@@ -116,13 +119,13 @@ static bool checkCodec(Ctx &c, const codec::Codec &k, const Input &in)
         QXmlStreamReader r(xu::wrapOpen() + ys + xu::wrapClose());
         while (!r.atEnd())
             r.readNext();
-        c.require(seqOk && !r.hasError(), std::string("c02 ") + k.name + " output-not-well-formed", [&] {
+        c.require(seqOk && !r.hasError(), std::string("c02 ") + k.name + " output-not-well-formed" + illFormedTag, [&] {
             return std::string(k.name) + " serialises to XML that is not well-formed (" + q(py.error) + " / " + q(r.errorString()) + ")\n output=" + y.left(3000).toStdString() + "\n input: " + q(in.desc) + "\n E=" + q(elementXml(in.target).left(3000));
         });
         c.label("multi-element-output");
         return true;
     }
-    c.require(xu::streamReaderAccepts(ys, &err) && xu::uniqueAttributes(ys, &err), std::string("c02 ") + k.name + " output-not-well-formed", [&] {
+    c.require(xu::streamReaderAccepts(ys, &err) && xu::uniqueAttributes(ys, &err), std::string("c02 ") + k.name + " output-not-well-formed" + illFormedTag, [&] {
         return std::string(k.name) + " serialises to XML that QXmlStreamReader rejects (" + q(err) + ")\n output=" + y.left(3000).toStdString() + "\n input: " + q(in.desc) + "\n E=" + q(elementXml(in.target).left(3000));
     });
     // (c) fixpoint
@@ -273,7 +276,8 @@ VCHECK("c02.sweep", 16)
 // drop its children, rename to an unknown tag, re-namespace, swap with the next sibling, hoist above its parent}.
 // "valid stanzas with children deleted, duplicated, reordered, re-namespaced or nested under the wrong parent", one edit at
 // a time at every position the repository's own documents have: a parser that mishandles one specific missing child
-// (a loop that never advances, an unchecked optional) is reached by construction, not by luck.
+// (a loop that never advances, an unchecked optional) is reached by construction, not by luck.  "prefix" spells one
+// element with a namespace prefix instead of a default namespace declaration (re-namespaced in spelling only).
 VCHECK("c02.sweep-structure", 16)
 {
     auto &corp = xm::corpus();
@@ -304,8 +308,8 @@ VCHECK("c02.sweep-structure", 16)
     const Ref r = refs[t.u(uint32_t(refs.size()))];
     xm::XNode &node = r.parent->kids[r.idx];
     const QString name = node.name;
-    static const char *actions[] = { "delete", "duplicate", "drop-children", "rename", "re-namespace", "swap-with-next", "hoist-above-parent" };
-    const uint32_t action = t.u(7);
+    static const char *actions[] = { "delete", "duplicate", "drop-children", "rename", "re-namespace", "swap-with-next", "hoist-above-parent", "prefix" };
+    const uint32_t action = t.u(8);
     switch (action) {
     case 0: r.parent->kids.remove(r.idx); break;
     case 1: {
@@ -316,6 +320,14 @@ VCHECK("c02.sweep-structure", 16)
     case 2: node.kids.clear(); break;
     case 3: node.name = QStringLiteral("zzz-unknown"); break;
     case 4: node.ns = QStringLiteral("urn:verif:other-namespace"); break;
+    case 7:
+        // the same element written with a namespace prefix: the same XML infoset, another spelling
+        if (!node.prefix.isEmpty()) {
+            c.label("already-prefixed");
+            return;
+        }
+        node.prefix = QStringLiteral("vp");
+        break;
     case 5: {
         int j = r.idx + 1;
         while (j < r.parent->kids.size() && r.parent->kids[j].isText)
